@@ -114,3 +114,91 @@ def shifted_classes_override(ctx, base_tq, rule='shifted-solver-overrides-sort')
                   'installs a shift and overrides the final sort' if has else
                   'installs a shift on the operator but reports eigenvalues without transforming them back')
     return n
+
+
+def _vanishes(fn, t, raw, depth=0):
+    """True when the expression is DEFINITELY zero once every variable in `raw` is zero (structural: a sum vanishes when both
+    terms do, a product when one factor does, a quotient with its numerator, sqrt/abs/conj with their argument)."""
+    if depth > 12 or not isinstance(t, tuple):
+        return False
+    if t[0] == 'L':
+        if t[1] in raw:
+            return True
+        inits = [d['init'] for x in fn.walk() if x['k'] == 'DeclStmt' for d in x['decls'] if 'init' in d and fn.locals[d['var']]['name'] == t[1]]
+        return len(inits) == 1 and _vanishes(fn, sym(fn, inits[0], inline=False), raw, depth + 1)
+    if t[0] == '*':
+        return any(_vanishes(fn, u, raw, depth + 1) for u in t[1:])
+    if t[0] == '/':
+        return _vanishes(fn, t[1], raw, depth + 1)
+    if t[0] in ('+', '-') and len(t) == 3:
+        return all(_vanishes(fn, u, raw, depth + 1) for u in t[1:])
+    if t[0] in ('neg', 'u-', 'cast') and len(t) == 2:
+        return _vanishes(fn, t[1], raw, depth + 1)
+    if t[0] == 'call' and t[1] in ('sqrt', 'abs', 'conj', 'real', 'imag', 'norm') and len(t) == 3:
+        return _vanishes(fn, t[2], raw, depth + 1)
+    if t[0] == 'ctor' and len(t) >= 3:
+        return all(_vanishes(fn, u, raw, depth + 1) for u in t[2:])
+    if t[0] == '?:':
+        return _vanishes(fn, t[2], raw, depth + 1) and _vanishes(fn, t[3], raw, depth + 1)
+    return False
+
+
+def _mentions(fn, t, raw, depth=0):
+    if depth > 12 or not isinstance(t, tuple):
+        return False
+    if t[0] == 'L':
+        if t[1] in raw:
+            return True
+        inits = [d['init'] for x in fn.walk() if x['k'] == 'DeclStmt' for d in x['decls'] if 'init' in d and fn.locals[d['var']]['name'] == t[1]]
+        return len(inits) == 1 and _mentions(fn, sym(fn, inits[0], inline=False), raw, depth + 1)
+    return any(_mentions(fn, u, raw, depth + 1) for u in t[1:])
+
+
+def complex_shift_backtransform_defined_at_zero(ctx, rule='back-transformation-defined-for-a-zero-ritz-value'):
+    """GenEigsComplexShiftSolver iterates with Re((A - sigma I)^-1), whose eigenvalues are nu = (lambda - sigmar) / |lambda - sigma|^2
+    for real lambda: nu is EXACTLY zero for a real eigenvalue equal to Re sigma -- the identity with sigmar = 1, the zero matrix
+    with sigmar = 0, c I, any diagonal entry equal to sigmar, symmetric zero-diagonal matrices from unit start vectors: all named
+    by the quantifiers of C13 and C02, and A - sigma I is far from singular.  (The real-shift operators are nonsingular: no
+    converged Ritz value is zero there.)  Every division in the back-transformation whose divisor vanishes with the raw Ritz
+    value must therefore sit on the non-zero side of an exact test of that value; 0.5 / nu = inf, inf - inf = NaN otherwise."""
+    fns = ctx.F.insts('Spectra::GenEigsComplexShiftSolver::sort_ritzpair')
+    if not fns:
+        raise AnalysisBroken('GenEigsComplexShiftSolver::sort_ritzpair not instantiated')
+    ndiv = 0
+    for fn in fns[:2]:
+        raw = set(fn.locals[d['var']]['name'] for x in fn.walk() if x['k'] == 'DeclStmt' for d in x['decls']
+                  if 'init' in d and sym(fn, d['init'], inline=False)[:2] == ('[]', ('F', 'm_ritz_val')))
+        if not raw:
+            raise AnalysisBroken('%s: no local holds a raw Ritz value' % fn.qname)
+        problems, seen = [], 0
+        for x in fn.walk():
+            if not (x['k'] in ('CXXOperatorCallExpr', 'BinaryOperator') and x.get('op') == '/'):
+                continue
+            ops = fn.call_args(x) if x['k'] == 'CXXOperatorCallExpr' else [fn.nodes[c] for c in x['c']]
+            den = sym(fn, ops[1], inline=False)
+            if not _mentions(fn, den, raw):
+                continue
+            seen += 1
+            if not _vanishes(fn, den, raw):
+                continue
+            guarded = False
+            for a in fn.ancestors(x):
+                if a['k'] == 'ConditionalOperator':
+                    c = sym(fn, fn.nodes[a['c'][0]], inline=False)
+                    side = 1 if fn.within(x, a['c'][1]) else 2 if fn.within(x, a['c'][2]) else 0
+                elif a['k'] == 'IfStmt':
+                    c = sym(fn, a['cond'], inline=False)
+                    side = 1 if fn.within(x, a['then']) else 2 if a.get('else', -1) not in (None, -1) and fn.within(x, a['else']) else 0
+                else:
+                    continue
+                if c[0] in ('==', '!=') and any(u == ('lit', '0') or (u[0] == 'ctor' and u[-1] == ('lit', '0')) for u in c[1:]) and any(u[0] == 'L' and u[1] in raw for u in c[1:]):
+                    if (c[0] == '==' and side == 2) or (c[0] == '!=' and side == 1):
+                        guarded = True
+            if not guarded:
+                problems.append('`%s` divides by %s, which is zero for a Ritz value that is exactly zero' % (fn.s(x)[:44], show(den)))
+        ndiv += seen
+        ctx.check(not problems, rule, 'GenEigsComplexShiftSolver::sort_ritzpair', fn.qname,
+                  '%d division(s) involve the raw Ritz value %s; those whose divisor vanishes with it are taken only on the non-zero side of an exact test' % (seen, sorted(raw)) if not problems else
+                  '; '.join(problems) + ': a real eigenvalue equal to Re(sigma) (identity with sigmar = 1, zero matrix with sigmar = 0) gives inf - inf = NaN eigenvalues with info() == Successful')
+    if ndiv < 2:
+        raise AnalysisBroken('only %d division(s) by the Ritz value found in the complex-shift back-transformation' % ndiv)
